@@ -226,4 +226,45 @@ theorem negotiate_creds_replies (cfg : Config) (t : List UInt8) (hc : cfg.creds 
       rcases userPass_replies cfg (t2.drop n.toNat) (2 + n.toNat) (v :: n :: t2).length with h | h | h <;>
         rw [h] <;> simp
 
+/-- the daemon hands the listener exactly the configured pairs, in order -/
+theorem ingressCredentials_eq (configured : List Cred) : ingressCredentials configured = configured := by
+  have h : ∀ (l acc : List Cred), l.foldl (fun acc a => acc ++ [(⟨a.user, a.pass⟩ : Cred)]) acc = acc ++ l := by
+    intro l
+    induction l with
+    | nil => intro acc; simp
+    | cons a l ih => intro acc; simp [List.foldl_cons, ih]
+  simpa [ingressCredentials] using h configured []
+
+/-- without credentials `handleAuthentication` returns nil ONLY for a well-framed offer that contains
+    no-authentication (the converse of `negotiate_nocreds_offer`) -/
+theorem negotiate_nocreds_served {cfg : Config} {t rest : List UInt8} (hc : cfg.creds = [])
+    (h : (negotiate cfg t).outcome = .served rest) :
+    ∃ (n : UInt8) (methods : List UInt8), n ≠ 0 ∧ methods.length = n.toNat ∧ noAuth ∈ methods ∧
+      t = socksVersion :: n :: methods ++ rest ∧ (negotiate cfg t).replies = [socksVersion, noAuth] := by
+  cases t with
+  | nil => simp [negotiate] at h
+  | cons v t1 =>
+    by_cases hv : v = socksVersion
+    case neg => simp [negotiate, hv] at h
+    cases t1 with
+    | nil => simp [negotiate, hv] at h
+    | cons n t2 =>
+      by_cases hn : n = 0
+      case pos => simp [negotiate, hv, hn] at h
+      by_cases hl : t2.length < n.toNat
+      case pos => simp [negotiate, hv, hn, hl] at h
+      obtain ⟨e2, l2⟩ := take_drop_split t2 n.toNat hl
+      by_cases h0 : (t2.take n.toNat).contains noAuth = true
+      · simp only [negotiate, hv, hn, hl, hc, h0, List.isEmpty_nil, Bool.and_true, Bool.not_true, Bool.false_and,
+          if_true, if_false, ne_eq, not_true_eq_false, not_false_eq_true, Bool.false_eq_true] at h ⊢
+        have hrest : rest = t2.drop n.toNat := by simpa using h.symm
+        refine ⟨n, t2.take n.toNat, hn, l2, by simpa using h0, ?_, by simp⟩
+        rw [hrest]
+        simp only [List.cons_append, List.cons.injEq, true_and]
+        exact e2
+      · have hm0 : noAuth ∉ t2.take n.toNat := by simpa using h0
+        by_cases h2 : userPassAuth ∈ t2.take n.toNat
+        · simp [negotiate, hv, hn, hl, hc, hm0, h2] at h
+        · simp [negotiate, hv, hn, hl, hc, hm0, h2] at h
+
 end Mieru.SocksAuth
